@@ -116,6 +116,10 @@ class UrlProblem(Problem):
             return "NormUnchecked"
         if isinstance(e, ast.Tuple):
             return tuple(self.classify(x, env) for x in e.elts)
+        from ..interproc import record_fields
+        rf_ = record_fields(self.c, self.f.module, e)
+        if rf_ is not None:
+            return tuple(self.classify(x, env) for x in rf_)          # a record is the tuple of its fields
         if isinstance(e, ast.Call) and self.depth < 2:
             # a private helper of the rule's module: the class of what it returns (component-wise for tuples)
             cs = self.c.cg.site_of.get(e)
